@@ -14,6 +14,11 @@ Pure `ast` over every module of src/datamodel_code_generator. The analysis is de
     (classified by what binds them at module level: import, def, class, constant, mutable, unknown) and the attributes it reads
     through its first parameter.
 (c) classMutables: dict/list/set displays or constructor calls assigned in a class body.
+(d) memoClasses / memoValueWrites: the package classes whose INSTANCES are shared process-wide — returned by a memoised function
+    (`Import.from_full_path -> Import`) or bound to a module-level name (`IMPORT_DATE = Import.from_full_path(...)`) — with their
+    declared fields, and every statement that stores to (or deletes) an attribute with one of those field names, or calls
+    `setattr` (file, function, target text, attribute). An in-place write to such an object would make a cached value differ
+    from what the memoised function returns: the premise `Sound` of `cache_transparent`.
 """
 from __future__ import annotations
 
@@ -551,6 +556,68 @@ def analyse() -> tuple[list[Site], list[CacheSite], list[ClassMutable]]:
     return sites, caches, muts
 
 
+# ---------------------------------------------------------------- (d) shared instances and writes to their fields
+def memo_classes(trees: dict[str, ast.AST]) -> dict[str, list[str]]:
+    classes: dict[str, ast.ClassDef] = {}
+    for tree in trees.values():
+        for n in ast.walk(tree):
+            if isinstance(n, ast.ClassDef):
+                classes.setdefault(n.name, n)
+    shared: set[str] = set()
+    for tree in trees.values():
+        for n in ast.walk(tree):
+            if isinstance(n, (ast.FunctionDef, ast.AsyncFunctionDef)) and _memo_decorator(n) in ("lru_cache", "cache") and n.returns is not None:
+                for x in ast.walk(n.returns if not (isinstance(n.returns, ast.Constant) and isinstance(n.returns.value, str)) else ast.parse(n.returns.value, mode="eval")):
+                    if isinstance(x, ast.Name) and x.id in classes:
+                        shared.add(x.id)
+        for st in getattr(tree, "body", []):
+            val = st.value if isinstance(st, (ast.Assign, ast.AnnAssign)) else None
+            if isinstance(val, ast.Call):
+                f = val.func
+                head = f.id if isinstance(f, ast.Name) else f.value.id if isinstance(f, ast.Attribute) and isinstance(f.value, ast.Name) else ""
+                if head in classes:
+                    shared.add(head)
+    out = {}
+    for c in sorted(shared):
+        fields = [st.target.id for st in classes[c].body if isinstance(st, ast.AnnAssign) and isinstance(st.target, ast.Name)]
+        if fields:
+            out[c] = fields
+    return out
+
+
+def memo_value_writes(trees: dict[str, ast.AST], mclasses: dict[str, list[str]]) -> list[tuple[str, str, str, str]]:
+    fields = {f for fs in mclasses.values() for f in fs}
+    out: set[tuple[str, str, str, str]] = set()
+    for file, tree in trees.items():
+
+        def visit(node, scope):
+            for ch in ast.iter_child_nodes(node):
+                sc = [*scope, ch.name] if isinstance(ch, (ast.FunctionDef, ast.AsyncFunctionDef, ast.ClassDef)) else scope
+                targets = []
+                if isinstance(ch, (ast.Assign, ast.Delete)):
+                    targets = ch.targets
+                elif isinstance(ch, (ast.AugAssign, ast.AnnAssign)):
+                    targets = [ch.target]
+                for t in targets:
+                    for x in ast.walk(t):
+                        if isinstance(x, ast.Attribute) and isinstance(x.ctx, (ast.Store, ast.Del)) and x.attr in fields:
+                            out.add((file, ".".join(scope) or "<module>", ast.unparse(x), x.attr))
+                if isinstance(ch, ast.Call) and isinstance(ch.func, ast.Name) and ch.func.id in ("setattr", "delattr") and ch.args:
+                    name = ch.args[1].value if len(ch.args) > 1 and isinstance(ch.args[1], ast.Constant) else "<dynamic>"
+                    if name == "<dynamic>" or name in fields:
+                        out.add((file, ".".join(scope) or "<module>", ast.unparse(ch.args[0]), str(name)))
+                visit(ch, sc)
+
+        visit(tree, [])
+    return sorted(out)
+
+
+def shared_instances() -> tuple[dict[str, list[str]], list[tuple[str, str, str, str]]]:
+    trees = {str(p.relative_to(SRC)): ast.parse(p.read_text()) for p in _files()}
+    mc = memo_classes(trees)
+    return mc, memo_value_writes(trees, mc)
+
+
 # ---------------------------------------------------------------- rendering
 def generate() -> str:
     sites, caches, muts = analyse()
@@ -583,6 +650,19 @@ def generate() -> str:
     out.append(
         "/-- mutable displays / constructor calls assigned in a class body: (file, class, attribute, kind) -/\n"
         "def classMutables : List (Nat × Nat × Nat × Nat) :=\n  [" + ",\n   ".join(rows) + "]\n"
+    )
+    mc, writes = shared_instances()
+    rows = [f"({k(c)}, [{', '.join(k(f) for f in fs)}])" for c, fs in mc.items()]
+    out.append(
+        "/-- package classes whose instances are shared process-wide (returned by a memoised function or bound to a\n"
+        "module-level name), with their declared fields -/\n"
+        "def memoClasses : List (Nat × List Nat) :=\n  [" + ",\n   ".join(rows) + "]\n"
+    )
+    rows = [f"({k(f)}, {k(fn)}, {k(t)}, {k(a)})" for f, fn, t, a in writes]
+    out.append(
+        "/-- every store to / delete of an attribute named like a field of such a class, and every dynamic setattr:\n"
+        "(file, function, target, attribute) -/\n"
+        "def memoValueWrites : List (Nat × Nat × Nat × Nat) :=\n  [" + ",\n   ".join(rows) + "]\n"
     )
     out.append("end Dcg.Gen.SetSites")
     return "\n".join(out) + "\n"
